@@ -381,6 +381,14 @@ def evaluate(case):
             bad = ["[ a /* never closed", "a $ b", text[:max(0, len(text) // 2)] + " /*", "{ a : ", "( ( ("][inst["poison"] % 5]
             parse_guarded(L, parser, bad, len(toks) + 8, budget=60000)      # outcome irrelevant, but must not hang
             classes.add("rejected_text_parsed_before")
+        if inst.get("fragment") is not None:
+            # parse(fragment, start_symbol_name=X) for some symbol X of the grammar (the documented way to look at how small
+            # parts are parsed) first, whatever it gives: the override is for that one call
+            xs = sorted(n for n in parser.prods_map if "__" not in n and not n.startswith("$"))
+            x = xs[inst["fragment"] % len(xs)]
+            parse_guarded(L, parser, ["a", "[ a ]", "7", text][inst["fragment"] % 4], len(toks) + 8, budget=60000,
+                          start_symbol_name=x)
+            classes.add("fragment_parsed_with_start_symbol_override_before")
         # the text as a str or as any iterable of lines (list, tuple, one-shot iterator, generator, file-like object)
         form = inst.get("form") or "str"
         lines = text.split("\n")
@@ -689,6 +697,7 @@ def st_case(draw, maxdepth=3):
                           "has_final": bool(flags.get("final")), "variant": draw(st.integers(0, 1)),
                           "poison": draw(st.none() | st.none() | st.integers(0, 4)),
                           "lead_lex": draw(st.integers(0, 7)),
+                          "fragment": draw(st.none() | st.none() | st.integers(0, 40)),
                           "form": draw(st.sampled_from(["str", "str", "str", "list", "tuple", "iter", "gen", "file",
                                                         "dictkeys"]))})
     lead = draw(st.sampled_from([None, None, "WORD", "NUM"]))
